@@ -37,15 +37,18 @@ SlotKinds  == ValueKinds \cup {"err", "empty", "none", "other"}
 IsValue(v) == v.k \in ValueKinds
 
 Has(r, f) == f \in DOMAIN r
+\* an observed real number is handed over as the small rationals it can be read as (all within 1e-9 of the double:
+\* q is the tightest reading, qs - when there are several - all of them); it agrees with an exact value that is one of them
+QAgrees(obs, q) == Has(obs, "q") /\ (obs.q = q \/ (Has(obs, "qs") /\ \E i \in DOMAIN obs.qs : obs.qs[i] = q))
 
 Matches(exp, obs) ==
   CASE exp.k = "unspec" -> obs.k \in SlotKinds
     [] exp.k = "empty"  -> obs.k = "empty"
     [] exp.k = "err"    -> obs.k = "err"
-    [] exp.k = "num"    -> obs.k = "num" /\ Has(obs, "q") /\ obs.q = exp.q
-    [] exp.k = "pct"    -> obs.k = "pct" /\ Has(obs, "q") /\ obs.q = exp.q
-    [] exp.k = "money"  -> obs.k = "money" /\ Has(obs, "q") /\ obs.q = exp.q /\ obs.cur = exp.cur
-    [] exp.k = "unit"   -> obs.k = "unit" /\ Has(obs, "q") /\ obs.q = exp.q /\ obs.u = exp.u
+    [] exp.k = "num"    -> obs.k = "num" /\ QAgrees(obs, exp.q)
+    [] exp.k = "pct"    -> obs.k = "pct" /\ QAgrees(obs, exp.q)
+    [] exp.k = "money"  -> obs.k = "money" /\ QAgrees(obs, exp.q) /\ obs.cur = exp.cur
+    [] exp.k = "unit"   -> obs.k = "unit" /\ QAgrees(obs, exp.q) /\ obs.u = exp.u
     [] exp.k = "dur"    -> obs.k = "dur" /\ obs.d = exp.d /\ obs.s = exp.s
     [] exp.k = "date"   -> obs.k = "date" /\ obs.day = exp.day
     [] exp.k = "time"   -> obs.k = "time" /\ obs.sod = exp.sod /\ obs.off = exp.off
